@@ -182,6 +182,7 @@ type HarnessResult struct {
 	Truncated    bool
 	InternalSyms bool
 	Lossy        int
+	UnknownMsgs  []string
 }
 
 var endNames = map[PathEndKind]string{EndNormal: "normal", EndInfeasible: "infeasible", EndAssumeFalse: "assume-false",
@@ -486,6 +487,11 @@ func (r *Runner) RunHarness(spec HarnessSpec, tier string) *HarnessResult {
 				hr.Instrs += in.instrs
 				if res.Inexact {
 					hr.Inexact++
+				}
+				for _, u := range res.Unknowns {
+					if len(hr.UnknownMsgs) < 10 {
+						hr.UnknownMsgs = append(hr.UnknownMsgs, u)
+					}
 				}
 				hr.UnknownAsrt += in.unknownAsserts
 				hr.Lossy += in.lossyStrings
